@@ -49,6 +49,7 @@ int main(int argc, char** argv)
    pg.densities = {15, 40, 100};
    pg.seeds = 60;
    pg.magnitudes = 2;
+   pg.kinds = 4;
    auto fp = [&](uint64_t idx, int, Ctx & c) -> uint64_t
    {
       PlantedSpec sp = pg.at(idx);
@@ -59,7 +60,7 @@ int main(int argc, char** argv)
       c.count(std::string("planted.") + sp.kindName() + ".enum=" + cl.name());
       std::string bad = planted_selfcheck(P);
       bool ok = bad.empty();
-      if(sp.kind == 0) ok = ok && cl.hasopt && cl.opt == P.cl.opt;
+      if(sp.kind == 0 || sp.kind == 3) ok = ok && cl.hasopt && cl.opt == P.cl.opt;
       else if(sp.kind == 1) ok = ok && !cl.feasible;
       else ok = ok && cl.feasible && !cl.hasopt;
       if(!ok) c.violation("planted-generator-disagrees-with-enumeration", sp.str(), std::string("enum=") + cl.name() + " opt=" + cl.opt.get_str() + " planted opt=" + P.cl.opt.get_str() + " " + bad + " lp=" + P.lp.str());
